@@ -13,7 +13,8 @@ import (
 func usage() {
 	fmt.Fprintln(os.Stderr, `usage:
   raftsim random -seed S -runs R -events E [-nodes N] -out trace.ndjson
-  raftsim replay -schedule sched.json -out trace.ndjson [-lockstep]`)
+  raftsim replay -schedule sched.json -out trace.ndjson [-lockstep]
+  raftsim window [-walks N -depth D -seed S -workers W] < EDGE lines of MC_ReadyWindow`)
 	os.Exit(2)
 }
 
@@ -31,6 +32,8 @@ func main() {
 		usage()
 	}
 	switch os.Args[1] {
+	case "window":
+		windowMain(os.Args[2:])
 	case "random":
 		fs := flag.NewFlagSet("random", flag.ExitOnError)
 		seed := fs.Int64("seed", 1, "")
